@@ -4,6 +4,9 @@ SPEC = {
  "props": [
   "props/C03.vo"
  ],
+ "tie": ["tie/HandleEquiv.vo"],
+ "gen_items": ["src/bytes/raw/allocated.rs:slice_unchecked + explicit_clone"],
+ "tieA_required": True,
  "case_libs": [
   "theories/CasesBytes.vo",
   "theories/CasesConcat.vo"
